@@ -38,6 +38,9 @@ pub fn emit_tables<T: Sc>(out: &mut Out, recipe: &Recipe, alpha: &[T], w: &Optio
     // (singular values that are not finite) the driver is told
     if svd_breaks(&phi, w) {
         out.line(" svdq nonfinite");
+    } else {
+        // ... and how accurate it is on this matrix (its measured backward error enters the driver's bounds)
+        emit_svdq(out, recipe, alpha, w);
     }
     out.line(&format!(" phi ok {}", mat_str(&phi)));
     for k in 0..recipe.p() {
@@ -195,7 +198,6 @@ pub fn run_state_case<T: Sc>(out: Option<&mut Out>, c: &StateCase<T>, fault: Opt
     };
     out.line(&format!("step build {}", slice_str(&c.init)));
     emit_tables(out, &c.recipe, &c.init, &c.w);
-    emit_svdq(out, &c.recipe, &c.init, &c.w);
     out.line(&format!(" impl yw {}", mat_str(&prob.yw())));
     out.line(&format!(" impl eps {}", hex(crate::pbuilder::parse_eps_from_debug::<T>(&prob.debug()))));
     emit_outputs(out, "impl", prob.as_ref());
@@ -203,7 +205,6 @@ pub fn run_state_case<T: Sc>(out: Option<&mut Out>, c: &StateCase<T>, fault: Opt
         marks.push(probe.count());
         out.line(&format!("step set {}", slice_str(alpha)));
         emit_tables(out, &c.recipe, alpha, &c.w);
-        emit_svdq(out, &c.recipe, alpha, &c.w);
         let av = DVector::from_vec(alpha.clone());
         let r = guarded(|| prob.set(&av));
         if let Err(m) = r {
